@@ -125,7 +125,34 @@ class Suite:
                 "distribution": dict(sorted(self.dist.items()))}
 
 
-def merge(*suites: Suite, exhaustive=False) -> dict:
+class Oracle:
+    """property checks evaluated on the real code alone (independent expectation, no Lean model in the loop)"""
+
+    def __init__(self, ctx, name):
+        self.ctx = ctx
+        self.name = "oracle-" + name
+        self.cases = 0
+        self.mismatches: list[dict] = []
+        self.dist = collections.Counter()
+        self.samples: list[dict] = []
+
+    def check(self, tag: str, ok: bool, inp, observed=None, expected=None):
+        self.cases += 1
+        self.dist[tag + (":ok" if ok else ":FAIL")] += 1
+        if not ok and len(self.mismatches) < 25:
+            self.mismatches.append({"input": inp, "impl": observed, "model": expected, "oracle": tag})
+        if ok and len(self.samples) < 3:
+            self.samples.append({"line": str(inp)[:200], "impl": str(observed)[:120], "model": "(oracle) " + str(expected)[:120]})
+
+    def flush(self):
+        pass
+
+    def result(self) -> dict:
+        return {"cases": self.cases, "mismatches": self.mismatches, "unmodelled": 0, "distribution": dict(sorted(self.dist.items())),
+                "kind": "real-code property oracle"}
+
+
+def merge(*suites, exhaustive=False) -> dict:
     res = {"suites": {}, "samples": [], "exhaustive": exhaustive}
     for s in suites:
         res["suites"][s.name] = s.result()
